@@ -142,6 +142,7 @@ def onceKind (k : String) : Option Kind :=
   match k with
   | "M" | "D" | "A" => some .future
   | "T" => some .operation
+  | "B" => some .operation   -- adt.Once driven through Do (callers return right after Do)
   | _ => kindOf k
 
 def concCase (subject k : String) (args : List Sexp) : Option String := do
@@ -186,7 +187,7 @@ def concCase (subject k : String) (args : List Sexp) : Option String := do
     let n := if subject == "opadd" then 1 else n
     let (s, ps) := sgSim.phases fuel (sgInit n g script) choices []
     pure (concObs ps (s.rets.map (fun _ => resStr .zero)) n)
-  | "wstartgroup" =>
+  | "wstartgroup" | "wstartgroupx" =>
     let (s, ps) := sgSim.phases fuel (sgInit n g script) choices []
     let errStrSorted (es : List Err) : String := "+".intercalate (sortStr (es.flatten.map atomStr))
     pure (concObs ps (s.rets.map (fun r => s!"0/{errStrSorted r.errs}")) n)
@@ -226,7 +227,7 @@ def allowedCase (subject k : String) (args : List Sexp) (o : Obs) : Option Bool 
   | "lock" => pure (allowedLock g o)
   | "oplaunch" | "opsignal" | "wlaunch" | "wsignal" | "wbackground" | "pbackground" | "xbackground" => pure (allowedBg g o)
   | "plaunch" => pure (o.phases.all (fun p => decide (p.2 ≤ 1)) && o.results.length == g)
-  | "opstartgroup" | "wstartgroup" => pure (allowedSg n g o)
+  | "opstartgroup" | "wstartgroup" | "wstartgroupx" => pure (allowedSg n g o)
   | "opadd" => pure (allowedSg 1 g o)
   | _ => none
 
